@@ -146,10 +146,8 @@ theorem lineExcludeLess_ok (fuel : Nat) (li lj : Generated.Modfile.Line)
     rw [hi, hj] at hf2 ⊢
     simp only [idxL_zero, idxL_one, GoRtList.ok_bind, List.headD_cons]
     by_cases hpq : p = q
-    · have hb : (p != q) = false := by simp [hpq]
-      have hcmp := Tie.FnSemver.Compare_tie v w fuel (by simpa using hf2)
+    · have hcmp := Tie.FnSemver.Compare_tie v w fuel (by simpa using hf2)
       simp only [hpq, decide_true, Bool.not_true, Bool.false_eq_true, if_false, bne_self_eq_false]
-      skip
       rw [hcmp]
       simp
     · have hb : (p != q) = true := by simp [hpq]
@@ -306,6 +304,18 @@ theorem pathMajorPrefix_ok_on_split (path : Bytes) (fuel : Nat)
     rcases Props.C06.pathMajorPrefix_no_panic_on_split path pre maj hs with ⟨_, h⟩ | ⟨n, _, h, _⟩
     · rw [h]; exact ⟨_, rfl⟩
     · rw [h]; exact ⟨_, rfl⟩
+
+theorem splitPathVersion_major_le (path : Bytes) : (Module.splitPathVersion path).2.1.length ≤ path.length := by
+  rcases hs : Module.splitPathVersion path with ⟨pre, maj, ok⟩
+  cases ok with
+  | false =>
+    have := split_not_ok_major_nil path pre maj hs
+    subst this; simp
+  | true =>
+    have h := (Props.C06.split_spec path pre maj hs).1
+    have : (pre ++ maj).length = path.length := by rw [h]
+    simp at this ⊢
+    omega
 
 /-! ### the fuel the driver passes (Drv/CmpOps.lean): `4 * (total bytes of both token lists) + 64` -/
 
